@@ -18,6 +18,9 @@ CHECKS = {
  "C09": dict(level="model_checking", technique=EV + "; call log and stub log as observers",
              text="Step lemma: with a ready entry for Q no command is executed and the predecessor is never requested (the stub *is* the cached prefix, so 'only commands right of the longest cached prefix run' follows level by level); after a cacheable miss the cache contains Q and serves its value; the predecessor is requested exactly once with the same cache.",
              design="§4 C09"),
+ "C18": dict(level="model_checking", technique=EV + "; metadata of the returned state and of the kept copies compared field by field with what the step actually did",
+             text="Claimed in part. Step lemma over 14 queries (typed argument, second-namespace command with attributes, five value types + opaque object, failing command, three trailing file names, link argument, sub-evaluation) with symbolic predecessor data, capitalised attribute and volatility, with/without store_key: canonical query, status/is_error/get() agreement, type identifier and data characteristics of the actual value, last command + namespace + version, parent query, argument/sub-queries, file name/extension/mimetype, attribute persistence, and agreement of the MemoryCache and MemoryStore copies; kernels: mimetype over every known extension, Metadata wrapper consistency.",
+             design="§4 C18"),
  "C06": dict(level="model_checking", technique=EV + "; plus State.get kernel over symbolic error logs",
              text="(a) an error predecessor state propagates: error result, get() raises, no command executed, nothing cached; (b) each failure kind (command raises, unknown command, unconvertible/missing/surplus argument, failing absolute/relative link, missing resource, unconvertible symbolic extra argument) yields an error state or a raised evaluation, never a value; (c) the failure carries the query text and the offset of the failing action/link argument as positioned by the real parser; (d) State.get re-raises with the last error entry's position and query for every log of length <=2 (thorough 3).",
              design="§4 C06"),
